@@ -431,7 +431,7 @@ func TestC03(t *testing.T) {
 		}
 	}
 	// (a) the rearranger as a pure function
-	kit.SetRapid(kit.N(40000, 2000000))
+	kit.SetRapid(kit.N(40000, 1000000))
 	rapid.Check(t, kit.Prop("C03", func(t *rapid.T) {
 		specs := kit.GenSubnets(t, []string{""}, opts)
 		n := rapid.IntRange(1, 12).Draw(t, "nclients")
@@ -444,7 +444,7 @@ func TestC03(t *testing.T) {
 		kit.Sample(map[string]interface{}{"layer": "pure", "subnets": specs, "clients": clients})
 	}))
 	// (b) compiled databases through the Reader API
-	kit.SetRapid(kit.N(400, 8000))
+	kit.SetRapid(kit.N(400, 5000))
 	rapid.Check(t, kit.Prop("C03", func(t *rapid.T) {
 		cc, probes := genC03Compiled(t)
 		kit.Case(c03Case{Layer: "compiled", Subnets: cc.Specs, Maps: cc.Maps})
